@@ -2,6 +2,7 @@ import N2k.Driver.Core
 import N2k.Driver.Pgn
 import N2k.Driver.Dec
 import N2k.Driver.ClientDrv
+import N2k.Driver.JsonDrv
 open N2k.Driver
 
 partial def loop (h : IO.FS.Stream) (out : IO.FS.Stream) (insts : DecInsts) : IO Unit := do
@@ -16,7 +17,9 @@ partial def loop (h : IO.FS.Stream) (out : IO.FS.Stream) (insts : DecInsts) : IO
         | some (i', r) => (i', r)
         | none => match handleClient toks with
           | some r => (insts, r)
-          | none => (insts, "bad-op")
+          | none => match handleJson insts toks with
+            | some (i', r) => (i', r)
+            | none => (insts, "bad-op")
   out.putStrLn resp
   loop h out insts'
 
